@@ -491,6 +491,42 @@ def judge_c13(ctx, cfg, inputs, aux=None):
             ctx.distinct_nontrivial += 1
     return v
 
+def judge_c13_stream(ctx, cfg, inputs):
+    """stream iteration over a failing reader: the error is yielded once, then None forever (persistent and one-shot faults,
+    several chunkings with Interrupted interleaved: all must agree, and agree with the model)"""
+    L = ctx.letters(cfg)
+    lines, meta = [], []
+    for d in inputs:
+        for k in range(len(d) + 1):
+            for tgt in ('v', 'i'):
+                kind = 2 + (k % 3)
+                lines.append('sio %s %s %d %d 6 %s' % (L, tgt, k, kind, hx(d)))
+                meta.append((d, k, kind, tgt))
+    io, mo = ctx.both(cfg, lines, impl_name='sjh_io', model_name='sjdriver_io')
+    v = []
+    for (d, k, kind, tgt), a, m in zip(meta, io, mo):
+        if a != m:
+            what = 'stream-io-schedule-dependent' if a.startswith('SCHEDULE') else 'stream-io-history'
+            v.append({'what': what, 'cfg': cfg, 'input': hx(d), 'fail_at': k, 'kind': kind, 'target': tgt,
+                      'expected': 'per proved model (error once, then None forever): ' + m, 'actual': a, 'shrinkable': False})
+        elif not ctx.quiet and 'EIo' in a:
+            ctx.distinct_nontrivial += 1
+    return v
+
+def writer_faults(ctx, cfg):
+    """writer half of C13 (serializer development): prefix property, per-buffer UTF-8, Io error with the writer's kind"""
+    try:
+        import checks.ser as ser_mod
+    except Exception:
+        return []
+    if not hasattr(ser_mod, 'run_c13_writer'):
+        return []
+    before = len(ctx.violations)
+    ser_mod.run_c13_writer(ctx)
+    new = ctx.violations[before:]
+    del ctx.violations[before:]
+    return new
+
 def run_c13(ctx):
     ctx.rule = ('reader side: for generated documents (valid and invalid) a reader that fails persistently with each of several ErrorKinds once k bytes were delivered, '
                 'for every k in 0..=len, under chunkings 1/3/64/pseudo-random with Interrupted interleaved (all must agree), Value and IgnoredAny targets; outcome must equal '
@@ -503,10 +539,31 @@ def run_c13(ctx):
         docs += list(itertools.islice(gen.enum_tokens(3), 0, None, 97))
         note_dist(ctx, docs)
         ctx.violations += judge_c13(ctx, cfg, docs)
+        streams = [b'[1] [2] [3]', b'1 2 3', b'"a""b" "c"', b' {"k":1}\n{"k":2}', b'true false null', b'[1] x', b'', b'  ', b'1'] + \
+                  [s for s in itertools.islice(stream_inputs(ctx, 3000), 0, None, 11) if len(s) < 60][:150 if ctx.tier == 'quick' else 1500]
+        ctx.violations += judge_c13_stream(ctx, cfg, streams)
+        ctx.violations += writer_faults(ctx, cfg)
         for d in docs[:4]:
             ctx.sample({'op': 'io', 'cfg': cfg, 'doc_hex': hx(d), 'fail_at': 'every k in 0..=len', 'kinds': 'TimedOut, BrokenPipe, ...'})
 
 # ================================================================== C14: hostile input
+_HEXSTR = __import__('re').compile(r'(?:s|[(,])([0-9a-f]{2,})(?=[:,)]|$)')
+
+def strings_utf8(out):
+    """every string value (s<hex>) and object key (<hex>:) in a canonical value line decodes as UTF-8"""
+    import re
+    for m in re.finditer(r's([0-9a-f]+)', out):
+        try:
+            bytes.fromhex(m.group(1)).decode('utf-8')
+        except (UnicodeDecodeError, ValueError):
+            return False
+    for m in re.finditer(r'[(,]([0-9a-f]+):', out):
+        try:
+            bytes.fromhex(m.group(1)).decode('utf-8')
+        except (UnicodeDecodeError, ValueError):
+            return False
+    return True
+
 def run_c14(ctx):
     ctx.rule = ('no PANIC / crash / non-termination / invalid-UTF-8 String on: the exhaustive 4-token space, random byte strings, mutated documents, '
                 'depth profiles 126..129 over every bracket mix, 10^5..10^6-deep nesting, megabyte strings and numbers, huge exponents, histories of many values '
@@ -517,15 +574,23 @@ def run_c14(ctx):
         def scan(inputs, ops=('pv', 'pi')):
             v = []
             for op in ops:
-                for src in ('b', 'r1'):
-                    outs = ctx.impl(cfg, ['%s %s %s %s' % (op, L, src, hx(d)) for d in inputs])
-                    for d, o in zip(inputs, outs):
+                for src in ('b', 'r1', 's'):
+                    ins = [d for d in inputs if src != 's' or gen.is_utf8(d)]
+                    outs = ctx.impl(cfg, ['%s %s %s %s' % (op, L, src, hx(d)) for d in ins])
+                    for d, o in zip(ins, outs):
+                        if o.startswith('ok ') and not strings_utf8(o):
+                            v.append({'what': 'invalid-utf8-string', 'cfg': cfg, 'input': hx(d), 'op': op, 'src': src,
+                                      'expected': 'every String / key in the result is valid UTF-8', 'actual': o[:300], 'aux': {'op': op, 'src': src}})
                         if o == 'PANIC' or o.startswith('CRASH') or o == '':
                             v.append({'what': 'panic-or-crash', 'cfg': cfg, 'input': hx(d) if len(d) < 4000 else 'len=%d head=%s' % (len(d), hx(d[:40])), 'op': op, 'src': src,
                                       'expected': 'a value or an error', 'actual': o, 'aux': {'op': op, 'src': src}})
                         elif o.startswith('ok'):
                             ctx.distinct_nontrivial += 1
             return v
+        surr = [b'"' + p + e1 + e2 + q + b'"' for p in (b'', b'A') for q in (b'', b'z') for e1 in (b'\\ud7ff', b'\\ud800', b'\\udbff', b'\\udc00', b'\\udc01', b'\\udfff', b'\\ue000', b'')
+                for e2 in (b'\\ud800', b'\\udbff', b'\\udc00', b'\\udfff', b'\\u0041', b'\\n', b'x', b'')]
+        surr += [b'{' + s_ + b':0}' for s_ in surr[:200]]
+        ctx.violations += scan(surr)
         for batch in chunks(itertools.chain(gen.enum_tokens(4 if ctx.tier == 'thorough' else 3),
                                             (bytes(rng.randrange(256) for _ in range(rng.randrange(1, 40))) for _ in range(50000)),
                                             doc_inputs(ctx, 1000)), 300000):
@@ -590,6 +655,28 @@ def judge_c19(ctx, cfg, inputs, aux=None):
                     ctx.disagreements.append({'input': hx(d), 'impl': a, 'model': m, 'cfg': cfg, 'op': op})
     return v
 
+def judge_c19_from_string(ctx, cfg, inputs):
+    """RawValue::from_string accepts exactly the strings that are one JSON text and holds exactly the value's bytes; a RawValue serialises
+    back verbatim, also through to_value (direct checks on the implementation; expected span = what from_str::<Box<RawValue>> captures)"""
+    L = ctx.letters(cfg)
+    ins = [d for d in inputs if gen.is_utf8(d)]
+    a = ctx.impl(cfg, ['rf %s' % hx(d) for d in ins])
+    b = ctx.impl(cfg, ['pr %s s %s' % (L, hx(d)) for d in ins])
+    v = []
+    for d, x, y in zip(ins, a, b):
+        fx = x.split(' ')
+        if is_ok(x) != is_ok(y):
+            v.append({'what': 'from_string-accepts-differently', 'cfg': cfg, 'input': hx(d), 'expected': 'same verdict as from_str::<Box<RawValue>>: ' + y, 'actual': x})
+        elif is_ok(x):
+            span = y.split(' ')[1]
+            if fx[1] != span:
+                v.append({'what': 'from_string-span', 'cfg': cfg, 'input': hx(d), 'expected': 'exactly the bytes of the value: ' + span, 'actual': x})
+            elif fx[2] != span or fx[3] != 'same':
+                v.append({'what': 'raw-not-verbatim', 'cfg': cfg, 'input': hx(d), 'expected': 'to_string(&raw) = %s and to_value(&raw) = the value that text denotes' % span, 'actual': x})
+            elif not ctx.quiet:
+                ctx.distinct_nontrivial += 1
+    return v
+
 def run_c19(ctx):
     ctx.rule = ('Box<RawValue> and IgnoredAny over the exhaustive 4-token space, generated documents with every whitespace placement, and their mutations, slice and '
                 '1-byte reader; captured span and accept/reject compared with the model (proved: exactly the source text of one value; scanner = RFC 8259 grammar minus '
@@ -598,8 +685,11 @@ def run_c19(ctx):
         for batch in chunks(space_inputs(ctx) if ctx.tier == 'thorough' else itertools.chain(gen.enum_tokens(3), itertools.islice(gen.enum_tokens(4, minlen=4), 0, None, 5), doc_inputs(ctx, 1500)), 300000):
             note_dist(ctx, batch)
             ctx.violations += judge_c19(ctx, cfg, batch)
+            ctx.violations += judge_c19_from_string(ctx, cfg, batch[::7])
             for d in batch[:3]:
                 ctx.sample({'op': 'pr/pi', 'cfg': cfg, 'input_hex': hx(d)})
+        ws_docs = [w1 + d + w2 for d in [b'null', b'1', b'"x"', b'[1, 2]', b'{"a" : [ ] }', b'-0.5e+3'] for w1 in (b'', b' ', b'\n\t') for w2 in (b'', b' ', b'\n', b' \r\n ')]
+        ctx.violations += judge_c19_from_string(ctx, cfg, ws_docs)
 
 PARSER_TB = ['modelled, not verified: std::io::Bytes (one-byte reads, Interrupted retried), memchr, str::from_utf8, BTreeMap/IndexMap insert, rustc float literal parsing (POW10), IEEE arithmetic of f64 (Flocq model)',
              'the three readers are abstracted to one cursor (rest, off, peeked) — tied by running str/slice/reader sources with chunk schedules']
